@@ -6,9 +6,11 @@ import (
 
 	"verif/kit"
 	"verif/pmc"
+	"verif/ref"
 
 	"github.com/orbs-network/lean-helix-go/services/interfaces"
 	"github.com/orbs-network/lean-helix-go/services/messagesfactory"
+	"github.com/orbs-network/lean-helix-go/services/preparedmessages"
 	"github.com/orbs-network/lean-helix-go/services/randomseed"
 	"github.com/orbs-network/lean-helix-go/services/termincommittee"
 	"github.com/orbs-network/lean-helix-go/spec/types/go/primitives"
@@ -40,7 +42,7 @@ func c18views(n int) []uint64 {
 }
 
 func c18(r *Rec, replay map[string]interface{}) {
-	r.Rule = "committee sizes 4..64 x views {0..4n} u {2^k, 2^k+-1} u neighbourhoods (+-(n+2)) of 2^31, 2^32, 2^63, 2^64-1 through the leader function; plus, behaviourally on a real node (n=4,7), which sender of a future-view PREPARE is treated as that view's leader. distinct_nontrivial = distinct (n, view class) pairs where class = bit length of the view"
+	r.Rule = "committee sizes 4..64 x views {0..4n} u {2^k, 2^k+-1} u neighbourhoods (+-(n+2)) of 2^31, 2^32, 2^63, 2^64-1 through the leader function; plus, behaviourally on real nodes (n=4,5,7; views from small to 2^64-1): which sender of a future-view PREPARE is treated as that view's leader, whose NEW_VIEW for view v is adopted (and which member is named as proposer to ValidateBlockProposal), which member is elected by a quorum of votes for view v, where the VIEW_CHANGE for v+1 is sent after a timeout in v, and whose PREPREPARE signature makes a prepared proof of view v-1 valid. distinct_nontrivial = distinct (n, view class) pairs where class = bit length of the view"
 	maxN := 64
 	for n := 4; n <= maxN; n++ {
 		c := kit.EqualCommittee(n)
@@ -104,7 +106,143 @@ func c18(r *Rec, replay map[string]interface{}) {
 			}
 		}
 	}
+	c18roles(r)
 	r.Sample(map[string]interface{}{"n": 7, "view": "9223372036854775808", "expected_leader_index": new(big.Int).Mod(new(big.Int).SetUint64(1<<63), big.NewInt(7)).Int64()})
 	r.Sample(map[string]interface{}{"n": 64, "views": len(c18views(64))})
 	r.Assume = []string{"views are drawn from dense and boundary classes, not all 2^64 values"}
+}
+
+// c18roles: every place where the real node decides "who leads view v" must agree with view mod n — for views a
+// node can only reach by jumping (NEW_VIEW or votes naming a huge view), every member position, n not a power of two.
+func c18roles(r *Rec) {
+	bigmod := func(v uint64, n int) int {
+		return int(new(big.Int).Mod(new(big.Int).SetUint64(v), big.NewInt(int64(n))).Int64())
+	}
+	seed := randomseed.CalculateRandomSeed(nil)
+	for _, n := range []int{4, 5, 7} {
+		c := kit.EqualCommittee(n)
+		w := pmc.NewWorld(c, false, nil)
+		fac := make([]*messagesfactory.MessageFactory, n)
+		for i := range c {
+			fac[i] = messagesfactory.NewMessageFactory(kit.Instance, &kit.KeyManager{Me: c[i].ID}, c[i].ID, seed)
+		}
+		q := n - (n-1)/3
+		views := []uint64{1, 2, 3, uint64(n) - 1, uint64(n), uint64(n) + 1, 1<<31 - 1, 1 << 31, 1<<32 + 1, 1<<63 - 2, 1<<63 - 1, 1 << 63, 1<<63 + 1, 1<<63 + 2, 1<<63 + 3, ^uint64(0) - 3, ^uint64(0) - 2, ^uint64(0) - 1, ^uint64(0)}
+		blk := kit.NewBlock(1, "X")
+		votesFor := func(v uint64, skip int) []*interfaces.ViewChangeMessage {
+			var vs []*interfaces.ViewChangeMessage
+			for i := 0; i < n && len(vs) < q; i++ {
+				if i != skip {
+					vs = append(vs, fac[i].CreateViewChangeMessage(1, primitives.View(v), nil))
+				}
+			}
+			return vs
+		}
+		for _, v := range views {
+			want := bigmod(v, n)
+			cls := fmt.Sprintf("roles n%d/bits%d", n, big.NewInt(0).SetUint64(v).BitLen())
+			// (a) whose NEW_VIEW for view v is adopted by member `me`, and who is named as the proposer
+			for _, me := range []int{0, n - 1} {
+				for L := 0; L < n; L++ {
+					if L == me {
+						continue
+					}
+					node := pmc.NewLNode(w, me)
+					node.Start()
+					vs := votesFor(v, -1)
+					ppb := fac[L].CreatePreprepareMessageContentBuilder(1, primitives.View(v), blk, kit.HashOf(blk))
+					nv := fac[L].CreateNewViewMessage(1, primitives.View(v), ppb, interfaces.ExtractConfirmationsFromViewChangeMessages(vs), blk)
+					preVals, preOuts := len(node.BU.Vals), len(node.Comm.Outs)
+					cs := map[string]interface{}{"n": n, "view": fmt.Sprint(v), "sender": L, "me": me, "site": "new-view"}
+					r.Case(cls)
+					if p := guard(func() { node.V.Deliver(nv.ToConsensusRawMessage()) }); p != "" {
+						r.Bad("C18:leader-panics", fmt.Sprintf("delivering a NEW_VIEW for view %d to a real node (committee of %d) panics: %s", v, n, p), cs)
+						continue
+					}
+					adopted := uint64(node.V.S.View()) == v && len(node.Comm.Outs) > preOuts
+					if adopted != (L == want) {
+						r.Bad("C18:behaviour-wrong-leader", fmt.Sprintf("NEW_VIEW for view %d from member %d to member %d (committee of %d): adopted=%v, but the leader of that view is member %d", v, L, me, n, adopted, want), cs)
+					}
+					for _, vc := range node.BU.Vals[preVals:] {
+						if vc.Leader != string(c[want].ID) {
+							r.Bad("C18:behaviour-wrong-leader", fmt.Sprintf("ValidateBlockProposal for view %d (committee of %d) was told the proposer is %q, the leader of that view is member %d (%q)", v, n, vc.Leader, want, c[want].ID), cs)
+						}
+					}
+					// (d) after adopting view v, a timeout sends the VIEW_CHANGE for v+1 to the leader of v+1
+					if adopted && v != ^uint64(0) {
+						next := bigmod(v+1, n)
+						pre := len(node.Comm.Outs)
+						cs2 := map[string]interface{}{"n": n, "view": fmt.Sprint(v + 1), "me": me, "site": "vote-destination"}
+						r.Case(cls)
+						if p := guard(func() { node.Step(pmc.Event{Kind: 't'}, nil, ref.Info{}, nil) }); p != "" || node.Dead != "" {
+							r.Bad("C18:leader-panics", fmt.Sprintf("timeout in view %d (committee of %d) panics: %s %s", v, n, p, node.Dead), cs2)
+							continue
+						}
+						if next != me {
+							ok := false
+							for _, o := range node.Comm.Outs[pre:] {
+								if len(o.To) == 1 && string(o.To[0]) == string(c[next].ID) {
+									ok = true
+								}
+							}
+							if !ok {
+								r.Bad("C18:behaviour-wrong-leader", fmt.Sprintf("member %d timed out in view %d (committee of %d): its VIEW_CHANGE for view %d did not go to member %d", me, v, n, v+1, next), cs2)
+							}
+						}
+					}
+				}
+			}
+			// (b) who is elected by a quorum of votes for view v
+			for me := 0; me < n; me++ {
+				node := pmc.NewLNode(w, me)
+				node.Start()
+				cs := map[string]interface{}{"n": n, "view": fmt.Sprint(v), "me": me, "site": "votes"}
+				r.Case(cls)
+				bad := false
+				for _, vc := range votesFor(v, me) {
+					if p := guard(func() { node.V.Deliver(vc.ToConsensusRawMessage()) }); p != "" {
+						r.Bad("C18:leader-panics", fmt.Sprintf("delivering a VIEW_CHANGE for view %d to a real node (committee of %d) panics: %s", v, n, p), cs)
+						bad = true
+						break
+					}
+				}
+				if bad {
+					continue
+				}
+				elected := uint64(node.V.S.View()) == v
+				if elected != (me == want) {
+					r.Bad("C18:behaviour-wrong-leader", fmt.Sprintf("member %d received a quorum of votes for view %d (committee of %d): elected=%v, but the leader of that view is member %d", me, v, n, elected, want), cs)
+				}
+			}
+			// (c) whose PREPREPARE signature makes a prepared proof of view v-1 valid (votes to the leader of v)
+			if v >= 2 {
+				pv := v - 1
+				wantP := bigmod(pv, n)
+				for L := 0; L < n; L++ {
+					node := pmc.NewLNode(w, want)
+					node.Start()
+					var preps []*interfaces.PrepareMessage
+					for i := 0; i < n && len(preps) < q-1; i++ {
+						if i != L {
+							preps = append(preps, fac[i].CreatePrepareMessage(1, primitives.View(pv), kit.HashOf(blk)))
+						}
+					}
+					voter := (want + 1) % n
+					vc := fac[voter].CreateViewChangeMessage(1, primitives.View(v), &preparedmessages.PreparedMessages{
+						PreprepareMessage: fac[L].CreatePreprepareMessage(1, primitives.View(pv), blk, kit.HashOf(blk)), PrepareMessages: preps})
+					before := len(node.Store.Rec)
+					cs := map[string]interface{}{"n": n, "view": fmt.Sprint(pv), "sender": L, "site": "proof-leader"}
+					r.Case(cls)
+					if p := guard(func() { node.V.Deliver(vc.ToConsensusRawMessage()) }); p != "" {
+						r.Bad("C18:leader-panics", fmt.Sprintf("delivering a vote with a proof of view %d (committee of %d) panics: %s", pv, n, p), cs)
+						continue
+					}
+					stored := len(node.Store.Rec) > before
+					if stored != (L == wantP) {
+						r.Bad("C18:behaviour-wrong-leader", fmt.Sprintf("vote for view %d with a prepared proof of view %d whose PREPREPARE is signed by member %d (committee of %d): counted=%v, but the leader of view %d is member %d", v, pv, L, n, stored, pv, wantP), cs)
+					}
+				}
+			}
+		}
+	}
 }
